@@ -73,12 +73,28 @@ pub struct CidFormat {
     rng: Rng,
     len: usize,
     lifetime: Option<Duration>,
+    /// lifetime of every second generated id (`cid_lifetime_alt_ms`; ids then expire out of sequence-number order)
+    lifetime_alt: Option<Duration>,
+    generated: u64,
     rotate: bool,
 }
 
 impl CidFormat {
     fn new(seed: u64, (len, lifetime_ms, rotate): (usize, Option<u64>, bool)) -> Self {
-        Self { rng: Rng(cfg::mix(seed ^ 0xc1d0_c1d0)), len: len.clamp(4, 20), lifetime: lifetime_ms.map(Duration::from_millis), rotate }
+        Self {
+            rng: Rng(cfg::mix(seed ^ 0xc1d0_c1d0)),
+            len: len.clamp(4, 20),
+            lifetime: lifetime_ms.map(Duration::from_millis),
+            lifetime_alt: None,
+            generated: 0,
+            rotate,
+        }
+    }
+    fn with_alt(mut self, alt_ms: u64) -> Self {
+        if alt_ms > 0 && self.lifetime.is_some() {
+            self.lifetime_alt = Some(Duration::from_millis(alt_ms));
+        }
+        self
     }
 }
 
@@ -88,10 +104,15 @@ impl s2n_quic::provider::connection_id::Generator for CidFormat {
         for b in id.iter_mut() {
             *b = self.rng.next() as u8;
         }
+        self.generated += 1;
         s2n_quic::provider::connection_id::LocalId::try_from_bytes(&id[..self.len]).expect("length checked")
     }
     fn lifetime(&self) -> Option<Duration> {
-        self.lifetime
+        // the registry asks for the lifetime right after generating an id
+        match self.lifetime_alt {
+            Some(alt) if self.generated % 2 == 0 => Some(alt),
+            _ => self.lifetime,
+        }
     }
     fn rotate_handshake_connection_id(&self) -> bool {
         self.rotate
@@ -218,7 +239,7 @@ macro_rules! build {
         // same settings as the library's default connection-id provider (16 random bytes, no lifetime,
         // handshake-id rotation on) unless a C13 parameter says otherwise; bytes come from the scenario PRNG
         let f = $cfg.cid_format($lim).unwrap_or((16, None, true));
-        let b = b.with_connection_id(CidFormat::new($cfg.seed ^ $salt, f))?;
+        let b = b.with_connection_id(CidFormat::new($cfg.seed ^ $salt, f).with_alt($lim.cid_lifetime_alt_ms))?;
         if $cfg.sreset && $ep == "s" {
             // stateless resets are off by default in s2n-quic; a keyed generator turns them on (scenario parameter)
             let b = b.with_stateless_reset_token(SResetTokens(cfg::mix($cfg.seed ^ 0x5e5e)))?;
